@@ -1,5 +1,7 @@
-import Pyunicorn.Lemmas.CrossWhole
+import Pyunicorn.Lemmas.CrossNsiWhole
+import Mathlib.Algebra.Order.BigOperators.Group.List
 import Pyunicorn.Generated.ArithC11
+import Pyunicorn.Generated.StructC11
 /-!
 # C11 — cross / internal measures of interacting networks match sub-blocks
 
@@ -1092,5 +1094,651 @@ theorem arith_nsi_apl (N : Nat) (D : Dist) (w : Nat → Rat) (L1 L2 : List Nat)
   unfold nsiCrossAPL
   simp only [h, if_false, ArithC11.nsiAplExpr]
   rfl
+
+/-! ## Round 3 -/
+
+/-! ### whole-network limits of the link counts and densities -/
+
+theorem whole_nonzeros (A : Adj) (n : Nat) (L : List Nat) (h : L.Perm (List.range n)) :
+    (rowSums (blockN A L L)).sum = netNonzeros n A := by
+  simp only [rowSums, blockN, block, List.map_map, Function.comp_def, netNonzeros]
+  rw [sum_perm_range h]
+  congr 1
+  apply List.map_congr_left
+  intro a _
+  rw [sum_perm_range h]
+
+/-- **whole-network limit of the link count**: `number_internal_links(L)` with `L` any ordering
+of all nodes is `Network.n_links` as left by the adjacency setter (number of non-zero entries,
+`// 2` on an undirected network), directed or not. -/
+theorem whole_n_links (directed : Bool) (A : Adj) (n : Nat) (L : List Nat)
+    (h : L.Perm (List.range n)) :
+    numberInternalLinks directed A L = netNLinks directed n A := by
+  unfold numberInternalLinks netNLinks internalAdjacency
+  simp only [whole_nonzeros A n L h]
+
+/-- on an undirected loop-free network the number of non-zero entries is even: twice the number
+of linked unordered pairs (so the `// 2` of `n_links` and of `number_internal_links` is exact) -/
+theorem netNonzeros_even (A : Adj) (hA : Symm A) (hloop : ∀ a, A a a = false) (n : Nat) :
+    netNonzeros n A = 2 * pairSum (fun a b => b2n (A a b)) (List.range n) := by
+  have hs : ∀ a b, (fun a b => b2n (A a b)) a b = (fun a b => b2n (A a b)) b a := by
+    intro a b
+    simp only [hA a b]
+  have hd := double_sum_symm_nat _ hs (List.range n)
+  have hz : ((List.range n).map fun a => (fun a b => b2n (A a b)) a a).sum = 0 := by
+    apply List.sum_eq_zero
+    intro x hx
+    simp only [List.mem_map] at hx
+    obtain ⟨a, _, rfl⟩ := hx
+    simp [hloop a, b2n]
+  rw [hz, Nat.zero_add] at hd
+  exact hd
+
+/-- `number_cross_links(L, L) = 2 · n_links` on an undirected loop-free network -/
+theorem whole_number_cross_links (A : Adj) (hA : Symm A) (hloop : ∀ a, A a a = false) (n : Nat)
+    (L : List Nat) (h : L.Perm (List.range n)) :
+    numberCrossLinks A L L = 2 * netNLinks false n A := by
+  unfold numberCrossLinks netNLinks
+  rw [whole_nonzeros A n L h, netNonzeros_even A hA hloop n]
+  simp
+
+/-- **whole-network limit of the link density**: `internal_link_density(L)` with `L` any ordering
+of all nodes is `Network.link_density` (`1.0 * n_links / N / (N − 1)` of the adjacency setter);
+on an undirected network this needs the symmetric loop-free adjacency (the internal count is
+halved with `//` and doubled again). -/
+theorem whole_link_density (directed : Bool) (A : Adj)
+    (hA : directed = false → Symm A ∧ ∀ a, A a a = false) (n : Nat) (L : List Nat)
+    (h : L.Perm (List.range n)) :
+    internalLinkDensity directed A L = netLinkDensity n A := by
+  have hl : L.length = n := by simpa using h.length_eq
+  unfold internalLinkDensity netLinkDensity
+  simp only [hl, whole_n_links directed A n L h]
+  by_cases hz : n * (n - 1) = 0
+  · simp [hz]
+  · simp only [hz, if_false]
+    have hn : 1 ≤ n := by
+      rcases Nat.eq_zero_or_pos n with h0 | h0
+      · simp [h0] at hz
+      · exact h0
+    have hc : ((n * (n - 1) : Nat) : Rat) = (n : Rat) * ((n : Rat) - 1) := by
+      rw [Nat.cast_mul, Nat.cast_sub hn]; simp
+    rw [hc, div_div]
+    congr 2
+    cases directed with
+    | true => simp [netNLinks]
+    | false =>
+      obtain ⟨hs, hloop⟩ := hA rfl
+      simp only [netNLinks, Bool.false_eq_true, if_false]
+      rw [netNonzeros_even A hs hloop n]
+      simp
+
+example : internalLinkDensity false (fun a b => a != b) [2, 0, 1]
+    = netLinkDensity 3 (fun a b => a != b) := by decide +kernel
+
+open Pyunicorn.Generated in
+/-- `Network.n_links` and `Network.link_density` as the adjacency setter computes them
+(`1.0 * n_links / N / (N - 1)`, then `n_links //= 2` under `if not self.directed`) — regenerated
+from the current `network.py` — are the model's `netNLinks` / `netLinkDensity`, the right-hand
+sides of `whole_n_links` / `whole_link_density` -/
+theorem arith_net_links (directed : Bool) (n : Nat) (A : Adj) (h : n * (n - 1) ≠ 0) :
+    ((netNLinks directed n A : Nat) : Int)
+        = (if ArithC11.netHalveGuard directed then
+            ArithC11.netNLinksUndirected ((netNonzeros n A : Nat) : Int)
+           else ((netNonzeros n A : Nat) : Int))
+      ∧ netLinkDensity n A
+        = some (ArithC11.netLinkDensityExpr ((netNonzeros n A : Nat) : Int) (n : Int)) := by
+  constructor
+  · cases directed <;> simp [netNLinks, ArithC11.netHalveGuard, ArithC11.netNLinksUndirected]
+  · simp only [netLinkDensity, h, if_false, ArithC11.netLinkDensityExpr]
+    push_cast
+    rfl
+
+
+/-! ### whole-network limits of the n.s.i. measures (`A⁺ = A + I`) -/
+
+/-- **whole-network limit of the n.s.i. local clustering**: on an undirected loop-free network
+`nsi_cross_local_clustering(L, L)` (= `nsi_internal_local_clustering(L)`) with `L` any ordering of
+all nodes is `Network.nsi_local_clustering()` in that order: expanding `A⁺ = A + I` in
+`Σ_{p,q} A⁺[v,p] A⁺[p,q] A⁺[q,v] w_p w_q` gives `(A D_w A⁺ D_w Aᵀ)_vv + 2 k*_v w_v − w_v²`.
+(`k*_v ≠ 0` is the guard under which the single-network method does not divide by zero.) -/
+theorem whole_nsi_local_clustering (A : Adj) (hA : Symm A) (hloop : ∀ a, A a a = false)
+    (w : Nat → Rat) (n : Nat) (L : List Nat) (h : L.Perm (List.range n))
+    (hk : ∀ i ∈ L, Net.nsiOutdeg n A w i ≠ 0) :
+    nsiCrossLocalClustering A w L L = L.map (Net.nsiLocalClustering n A w) := by
+  rw [nsiCrossLocalClustering_eq_def A hA]
+  apply List.map_congr_left
+  intro v hv
+  have hvn : v < n := List.mem_range.mp (h.mem_iff.mp hv)
+  simp only [sum_perm_range h]
+  have hkv : ((List.range n).map fun p => if aplus A v p then w p else 0).sum
+      = Net.nsiOutdeg n A w v := rfl
+  have hk2 : Net.nsiOutdeg n A w v * Net.nsiOutdeg n A w v ≠ 0 := mul_ne_zero (hk v hv) (hk v hv)
+  rw [hkv]
+  simp only [hk2, ne_eq, not_false_eq_true, if_true]
+  unfold Net.nsiLocalClustering
+  simp only
+  congr 1
+  -- the expansion
+  let e : Nat → Rat := fun q => if v = q then 1 else 0
+  let a : Nat → Rat := fun q => if A v q then 1 else 0
+  have hdelta : ∀ F : Nat → Rat, ((List.range n).map fun q => F q * e q).sum = F v :=
+    fun F => sum_mul_delta n v hvn F
+  have hae : ∀ x, a x + e x = if aplus A v x then 1 else 0 := by
+    intro x
+    by_cases hx : v = x
+    · subst hx
+      simp [a, e, hloop v, aplus_diag]
+    · have : aplus A v x = A v x := by simp [aplus, hx]
+      simp [a, e, hx, this]
+  have hrow : ∀ q, a q * apn A v q = a q := by
+    intro q
+    by_cases hq : A v q = true
+    · have : aplus A v q = true := by simp [aplus, hq]
+      simp [a, apn, hq, this]
+    · simp [a, hq]
+  have hcol : ∀ p, a p * apn A p v = a p := by
+    intro p
+    by_cases hp : A v p = true
+    · have : aplus A p v = true := by simp [aplus, hA p v, hp]
+      simp [a, apn, hp, this]
+    · simp [a, hp]
+  have hvv : apn A v v = 1 := by simp [apn, aplus]
+  have key := aplus_expand (List.range n) e a w (apn A) v hdelta hrow hcol hvv
+  have eL : ∀ p q, (if aplus A v p && (aplus A p q && aplus A q v) then w p * w q else 0)
+      = (a p + e p) * apn A p q * (a q + e q) * (w p * w q) := by
+    intro p q
+    rw [aplus_symm A hA q v, hae, hae, ite_and3]
+    rfl
+  have eN : ∀ j l, (if A v j && Net.aplus A j l && A v l then w j * w l else 0)
+      = a j * apn A j l * a l * (w j * w l) := by
+    intro j l
+    rw [Bool.and_assoc, ite_and3]
+    rfl
+  have eK : ∀ q, (if aplus A v q then w q else 0) = (a q + e q) * w q := by
+    intro q
+    rw [hae, ite_one_mul]
+  have hk' : Net.nsiOutdeg n A w v = ((List.range n).map fun q => (a q + e q) * w q).sum := by
+    rw [← hkv]
+    congr 1
+    apply List.map_congr_left
+    intro q _
+    exact eK q
+  simp only [eL, key, Net.sumToQ, eN, hk']
+
+example : nsiCrossLocalClustering (fun a b => a != b) (fun i => (i : Rat) + 1) [2, 0, 1] [2, 0, 1]
+    = [2, 0, 1].map (Net.nsiLocalClustering 3 (fun a b => a != b) (fun i => (i : Rat) + 1)) := by
+  decide +kernel
+
+/-- **whole-network limit of the n.s.i. global clustering**: … `nsi_cross_global_clustering(L, L)
+= Network.nsi_global_clustering()` -/
+theorem whole_nsi_global_clustering (A : Adj) (hA : Symm A) (hloop : ∀ a, A a a = false)
+    (w : Nat → Rat) (n : Nat) (L : List Nat) (h : L.Perm (List.range n))
+    (hk : ∀ i ∈ L, Net.nsiOutdeg n A w i ≠ 0) :
+    nsiCrossGlobalClustering A w L L = netNsiGlobalClustering n A w := by
+  unfold nsiCrossGlobalClustering netNsiGlobalClustering
+  rw [whole_nsi_local_clustering A hA hloop w n L h hk, zipWith_map_self]
+  simp only [wsum, sum_perm_range h]
+  simp only [mul_comm]
+
+/-- with positive node weights every n.s.i. degree is positive (`k*_v ≥ w_v`): the guard `k*_v ≠ 0`
+of `whole_nsi_local_clustering` holds for every admissible weight vector -/
+theorem nsiOutdeg_pos (A : Adj) (w : Nat → Rat) (hw : ∀ i, 0 < w i) (n v : Nat) (hv : v < n) :
+    0 < Net.nsiOutdeg n A w v := by
+  unfold Net.nsiOutdeg Net.sumToQ
+  have hnn : ∀ x ∈ (List.range n).map (fun j => if Net.aplus A v j then w j else 0), (0 : Rat) ≤ x := by
+    intro x hx
+    simp only [List.mem_map] at hx
+    obtain ⟨j, _, rfl⟩ := hx
+    split
+    · exact le_of_lt (hw j)
+    · exact le_refl 0
+  have hmem : w v ∈ (List.range n).map (fun j => if Net.aplus A v j then w j else 0) := by
+    simp only [List.mem_map, List.mem_range]
+    exact ⟨v, hv, by simp [Net.aplus]⟩
+  exact lt_of_lt_of_le (hw v) (List.single_le_sum hnn _ hmem)
+
+/-- the whole-network limit of the n.s.i. local clustering for positive node weights -/
+theorem whole_nsi_local_clustering_pos (A : Adj) (hA : Symm A) (hloop : ∀ a, A a a = false)
+    (w : Nat → Rat) (hw : ∀ i, 0 < w i) (n : Nat) (L : List Nat) (h : L.Perm (List.range n)) :
+    nsiCrossLocalClustering A w L L = L.map (Net.nsiLocalClustering n A w)
+      ∧ nsiCrossGlobalClustering A w L L = netNsiGlobalClustering n A w := by
+  have hk : ∀ i ∈ L, Net.nsiOutdeg n A w i ≠ 0 := by
+    intro i hi
+    have hin : i < n := List.mem_range.mp (h.mem_iff.mp hi)
+    exact ne_of_gt (nsiOutdeg_pos A w hw n i hin)
+  exact ⟨whole_nsi_local_clustering A hA hloop w n L h hk,
+    whole_nsi_global_clustering A hA hloop w n L h hk⟩
+
+/-- **whole-network limit of the n.s.i. transitivity**: on an undirected network
+`nsi_cross_transitivity(L, L)` with `L` any ordering of all nodes is `Network.nsi_transitivity()`:
+`Σ_v w_v Σ_{p,q} A⁺[v,p] A⁺[v,q] A⁺[p,q] w_p w_q = tr((A⁺D_w)³)` and
+`Σ_v w_v (k*_v)² = Σ_{ij} (D_w A⁺ D_w A⁺ D_w)_{ij}`, with the same `ZeroDivisionError` / `nan`
+branch. -/
+theorem whole_nsi_transitivity (A : Adj) (hA : Symm A) (w : Nat → Rat) (n : Nat) (L : List Nat)
+    (h : L.Perm (List.range n)) :
+    nsiCrossTransitivity A w L L = netNsiTransitivity n A w := by
+  rw [nsiCrossTransitivity_eq_def A hA]
+  simp only [sum_perm_range h]
+  unfold netNsiTransitivity
+  simp only
+  have hs : ∀ a b, apn A a b = apn A b a := by
+    intro a b
+    simp only [apn, aplus_symm A hA a b]
+  have hnum : ((List.range n).map fun v => w v * ((List.range n).map fun p =>
+        ((List.range n).map fun q =>
+          if aplus A v p && (aplus A v q && aplus A p q) then w p * w q else 0).sum).sum).sum
+      = ((List.range n).map fun i => ((List.range n).map fun j => ((List.range n).map fun k =>
+          apn A i j * w j * (apn A j k * w k) * (apn A k i * w i)).sum).sum).sum := by
+    congr 1
+    apply List.map_congr_left
+    intro v _
+    rw [← sum_map_mul_left]
+    congr 1
+    apply List.map_congr_left
+    intro p _
+    rw [← sum_map_mul_left]
+    congr 1
+    apply List.map_congr_left
+    intro q _
+    rw [hs q v]
+    simp only [apn]
+    cases aplus A v p <;> cases aplus A v q <;> cases aplus A p q <;> simp <;> ring
+  have hden : ((List.range n).map fun v => w v *
+        (((List.range n).map fun p => if aplus A v p then w p else 0).sum
+          * ((List.range n).map fun p => if aplus A v p then w p else 0).sum)).sum
+      = ((List.range n).map fun i => ((List.range n).map fun j => ((List.range n).map fun k =>
+          w i * (apn A i k * w k) * (apn A k j * w j)).sum).sum).sum := by
+    rw [triple_sum_rotate (fun i j k => w i * (apn A i k * w k) * (apn A k j * w j))]
+    congr 1
+    apply List.map_congr_left
+    intro k _
+    have hK : ((List.range n).map fun p => if aplus A k p then w p else 0)
+        = (List.range n).map fun p => apn A k p * w p := by
+      apply List.map_congr_left
+      intro p _
+      simp only [apn]
+      cases aplus A k p <;> simp
+    rw [hK, sum_mul_sum, ← sum_map_mul_left]
+    congr 1
+    apply List.map_congr_left
+    intro i _
+    rw [← sum_map_mul_left]
+    congr 1
+    apply List.map_congr_left
+    intro j _
+    rw [hs i k]
+    ring
+  rw [hnum, hden]
+
+example : nsiCrossTransitivity (fun a b => a + 1 == b || b + 1 == a) (fun i => (i : Rat) + 1)
+      [2, 0, 1] [2, 0, 1]
+    = netNsiTransitivity 3 (fun a b => a + 1 == b || b + 1 == a) (fun i => (i : Rat) + 1) := by
+  decide +kernel
+
+/-- **whole-network limit of the n.s.i. closeness** on a connected network:
+`nsi_cross_closeness_centrality(L, L)` (= `nsi_internal_closeness_centrality(L)`) with `L` any
+ordering of all nodes is `Network.nsi_closeness()` in that order, `W / Σ_j w_j (d_ij + δ_ij)`
+(no unreachable pair, so neither convention for `inf` is used). -/
+theorem whole_nsi_closeness (D : Dist) (w : Nat → Rat) (n : Nat) (L : List Nat)
+    (h : L.Perm (List.range n)) (hconn : ∀ a b, (D a b).isSome) :
+    nsiCrossCloseness n D w L L = L.map (netNsiCloseness n D w) := by
+  unfold nsiCrossCloseness netNsiCloseness
+  apply List.map_congr_left
+  intro a _
+  have hany : ((List.range n).any fun j => (D a j).isNone) = false := by
+    rw [List.any_eq_false]
+    intro j _
+    have := hconn a j
+    cases hd : D a j with
+    | none => simp [hd] at this
+    | some v => simp
+  simp only [hany, Bool.false_eq_true, if_false, wsum, sum_perm_range h]
+  have hs : ((List.range n).map fun b => nsiDist n D a b * w b)
+      = (List.range n).map fun j => ((D a j).getD 0 + (if a = j then 1 else 0)) * w j := by
+    apply List.map_congr_left
+    intro j _
+    have := hconn a j
+    unfold nsiDist
+    cases hd : D a j with
+    | none => simp [hd] at this
+    | some v => simp
+  rw [hs]
+
+example : nsiCrossCloseness 2 (fun a b => if a = b then some 0 else some 1) (fun _ => 2) [1, 0] [1, 0]
+    = [1, 0].map (netNsiCloseness 2 (fun a b => if a = b then some 0 else some 1) (fun _ => 2)) := by
+  decide +kernel
+
+/-- **whole-network limit of the n.s.i. average path length** on a connected network:
+`nsi_cross_average_path_length(L, L)` with `L` any ordering of all nodes is
+`Network.nsi_average_path_length()` — with both groups equal the code's `W_i · W_i` *is*
+`W_1 W_2`, and without unreachable pairs its `W_ij` correction vanishes. -/
+theorem whole_nsi_average_path_length (D : Dist) (w : Nat → Rat) (n : Nat) (L : List Nat)
+    (h : L.Perm (List.range n)) (hconn : ∀ a b, (D a b).isSome) :
+    nsiCrossAPL n D w L L = netNsiAPL n D w := by
+  have hnone : ∀ a b, (D a b).isNone = false := by
+    intro a b
+    have := hconn a b
+    cases hd : D a b with
+    | none => simp [hd] at this
+    | some v => rfl
+  unfold nsiCrossAPL nsiCrossAPLParts netNsiAPL
+  simp only [hnone, Bool.false_eq_true, if_false, wsum, sum_perm_range h]
+  have hz : ((List.range n).map fun _ => ((List.range n).map fun _ => (0 : Rat)).sum).sum = 0 := by
+    simp
+  have hden : ((List.range n).map fun i => ((List.range n).map fun j => w i * w j).sum).sum
+      = ((List.range n).map w).sum * ((List.range n).map w).sum := by
+    rw [sum_mul_sum]
+  have hnum : ((List.range n).map fun a =>
+        ((List.range n).map fun b => nsiDist n D a b * w b).sum * w a).sum
+      = ((List.range n).map fun i => w i * ((List.range n).map fun j =>
+          nsiDistZ D i j * w j).sum).sum := by
+    congr 1
+    apply List.map_congr_left
+    intro a _
+    rw [mul_comm]
+    congr 2
+    apply List.map_congr_left
+    intro b _
+    have := hconn a b
+    unfold nsiDist nsiDistZ
+    cases hd : D a b with
+    | none => simp [hd] at this
+    | some v => rfl
+  rw [hz, hden, hnum, sub_zero]
+
+example : nsiCrossAPL 2 (fun a b => if a = b then some 0 else some 1) (fun i => (i : Rat) + 1)
+      [1, 0] [1, 0]
+    = netNsiAPL 2 (fun a b => if a = b then some 0 else some 1) (fun i => (i : Rat) + 1) := by
+  decide +kernel
+
+/-! ### closeness and efficiency: what the one-line matrix expressions compute -/
+
+/-- **`cross_closeness` = definition**: entry `a` is `M / (Σ finite d_ab + (N − 1) · #unreachable)`
+over `b ∈ L2` (`N` = size of the whole network), and `0` where that sum vanishes. -/
+theorem crossCloseness_eq_def (N : Nat) (D : Dist) (L1 L2 : List Nat) :
+    crossCloseness N D L1 L2 = L1.map fun a =>
+      let r := L2.map fun b => D a b
+      let s := (finiteOf r).sum
+        + ((r.filter Option.isNone).length : Rat) * (((N : Int) - 1 : Int) : Rat)
+      if s ≠ 0 then (L2.length : Rat) / s else 0 := by
+  unfold crossCloseness generalCloseness block
+  rw [List.map_map]
+  apply List.map_congr_left
+  intro a _
+  simp only [Function.comp_def, row_getD_sum, Int.cast_natCast]
+
+/-- **`internal_closeness` = definition**: `(|L| − 1) / (Σ finite d_ab + (|L| − 1) · #unreachable)` -/
+theorem internalCloseness_eq_def (D : Dist) (L : List Nat) :
+    internalCloseness D L = L.map fun a =>
+      let r := L.map fun b => D a b
+      let s := (finiteOf r).sum
+        + ((r.filter Option.isNone).length : Rat) * (((L.length : Int) - 1 : Int) : Rat)
+      if s ≠ 0 then (((L.length : Int) - 1 : Int) : Rat) / s else 0 := by
+  unfold internalCloseness generalCloseness block
+  rw [List.map_map]
+  apply List.map_congr_left
+  intro a _
+  simp only [Function.comp_def, row_getD_sum]
+
+example : crossCloseness 4 (fun a b => if a + b = 3 then none else some 2) [0] [2, 3] = [2 / 5] := by
+  decide +kernel
+
+/-- the closeness of a node does not depend on the order of the second list -/
+theorem crossCloseness_perm_right (N : Nat) (D : Dist) (L1 : List Nat) {L2 L2' : List Nat}
+    (h : L2.Perm L2') : crossCloseness N D L1 L2 = crossCloseness N D L1 L2' := by
+  unfold crossCloseness generalCloseness block
+  rw [List.map_map, List.map_map, h.length_eq]
+  apply List.map_congr_left
+  intro a _
+  simp only [Function.comp_def, List.map_map]
+  rw [(h.map fun b => (D a b).getD (((N : Int) - 1 : Int) : Rat)).sum_eq]
+
+/-- the n.s.i. closeness of a node does not depend on the order of the second list -/
+theorem nsiCrossCloseness_perm_right (N : Nat) (D : Dist) (w : Nat → Rat) (L1 : List Nat)
+    {L2 L2' : List Nat} (h : L2.Perm L2') :
+    nsiCrossCloseness N D w L1 L2 = nsiCrossCloseness N D w L1 L2' := by
+  unfold nsiCrossCloseness wsum
+  apply List.map_congr_left
+  intro a _
+  rw [(h.map fun b => nsiDist N D a b * w b).sum_eq, (h.map w).sum_eq]
+
+/-- **`local_efficiency` = definition**: without a zero distance between the groups, entry `a`
+is the mean over `b ∈ L2` of `1/d_ab` with unreachable nodes contributing `0`. -/
+theorem localEfficiency_eq_def (D : Dist) (L1 L2 : List Nat) (hne : L2 ≠ [])
+    (hpos : ∀ a ∈ L1, ∀ b ∈ L2, D a b ≠ some 0) :
+    localEfficiency D L1 L2 = some (L1.map fun a =>
+      ((finiteOf (L2.map fun b => D a b)).map fun d => 1 / d).sum / (L2.length : Rat)) := by
+  have n2 : L2.length ≠ 0 := by simpa using hne
+  have hany : ((block D L1 L2).any fun r => r.any (· == some 0)) = false := by
+    rw [List.any_eq_false]
+    intro r hr
+    simp only [block, List.mem_map] at hr
+    obtain ⟨a, ha, rfl⟩ := hr
+    simp only [List.any_map, Bool.not_eq_true, List.any_eq_false, Function.comp_def]
+    intro b hb
+    simpa using hpos a ha b hb
+  unfold localEfficiency
+  simp only [n2, hany, false_or, Bool.false_eq_true, if_false]
+  congr 1
+  simp only [block, List.map_map, Function.comp_def]
+  apply List.map_congr_left
+  intro a _
+  rw [← row_invD_sum, List.map_map]
+  rfl
+
+/-- **`global_efficiency` = harmonic mean**: `|L1|·|L2| / Σ_{a,b reachable} 1/d_ab` -/
+theorem globalEfficiency_eq_harmonic (D : Dist) (L1 L2 : List Nat) (h1 : L1 ≠ []) (h2 : L2 ≠ [])
+    (hpos : ∀ a ∈ L1, ∀ b ∈ L2, D a b ≠ some 0)
+    (hS : (L1.map fun a => ((finiteOf (L2.map fun b => D a b)).map fun d => 1 / d).sum).sum ≠ 0) :
+    globalEfficiency D L1 L2 = .val (((L1.length : Rat) * (L2.length : Rat))
+      / (L1.map fun a => ((finiteOf (L2.map fun b => D a b)).map fun d => 1 / d).sum).sum) := by
+  have n1 : L1.length ≠ 0 := by simpa using h1
+  have n2 : L2.length ≠ 0 := by simpa using h2
+  have q1 : (L1.length : Rat) ≠ 0 := by exact_mod_cast n1
+  have q2 : (L2.length : Rat) ≠ 0 := by exact_mod_cast n2
+  unfold globalEfficiency
+  rw [localEfficiency_eq_def D L1 L2 h2 hpos]
+  simp only [mean, List.length_map, n1, if_false]
+  rw [sum_div_const]
+  generalize (L1.map fun a => ((finiteOf (L2.map fun b => D a b)).map fun d => 1 / d).sum).sum = S
+    at hS ⊢
+  have hm : S / (L2.length : Rat) / (L1.length : Rat) ≠ 0 := by
+    apply div_ne_zero (div_ne_zero hS q2) q1
+  simp only [hm, if_false]
+  congr 1
+  field_simp
+
+example : globalEfficiency (fun a b => if a = b then some 0 else some 2) [0] [1, 2] = .val 2 := by
+  decide +kernel
+
+/-- **two independently coded closeness measures agree**: for disjoint groups and unit node
+weights `nsi_cross_closeness_centrality` (`W_2 / Σ_q w_q d*_vq`, an `inf` where the sum vanishes)
+is `cross_closeness` (`M / Σ_b d'_ab`, `0` where the sum vanishes): no `δ` term arises between
+disjoint groups and both count unreachable pairs as `N − 1`. -/
+theorem nsiCrossCloseness_unit_weights (N : Nat) (D : Dist) (L1 L2 : List Nat)
+    (hdisj : ∀ a ∈ L1, a ∉ L2) :
+    (nsiCrossCloseness N D (fun _ => 1) L1 L2).map (·.getD 0) = crossCloseness N D L1 L2 := by
+  unfold nsiCrossCloseness crossCloseness generalCloseness block
+  rw [List.map_map, List.map_map]
+  apply List.map_congr_left
+  intro a ha
+  have hs : (L2.map fun b => nsiDist N D a b * 1)
+      = L2.map fun b => (D a b).getD (((N : Int) - 1 : Int) : Rat) := by
+    apply List.map_congr_left
+    intro b hb
+    have hab : a ≠ b := fun e => hdisj a ha (e ▸ hb)
+    unfold nsiDist
+    cases D a b <;> simp [hab]
+  have hw : wsum (fun _ => (1 : Rat)) L2 = (L2.length : Rat) := by
+    simp [wsum]
+  simp only [Function.comp_def, hs, hw, List.map_map, Int.cast_natCast]
+  split <;> simp_all
+
+example : (nsiCrossCloseness 3 (fun a b => if a = b then some 0 else some 2) (fun _ => 1)
+    [0] [1, 2]).map (·.getD 0)
+    = crossCloseness 3 (fun a b => if a = b then some 0 else some 2) [0] [1, 2] := by
+  decide +kernel
+
+/-! ### integer widths: no expression the source evaluates in a fixed-width integer type wraps
+
+`Generated/StructC11.lean` (translate/gen_C11.py, regenerated on every run) lists every explicit
+dtype conversion (`to_cy(…, T)`, `.astype(T)`, `dtype=T`) of the anchored methods; `casts_safe`
+below says each of them is applied to a value its type can hold.  The arithmetic itself: -/
+
+theorem wrap_id (m x : Int) (h1 : -m ≤ x) (h2 : x < m) : wrap m x = x := by
+  unfold wrap
+  rw [Int.emod_eq_of_lt (by omega) (by omega)]
+  omega
+
+/-- **`norm = k (k − 1) / 2` does not wrap in the 64-bit integers `np.sum` returns**: for every
+cross degree `k < 2^31` (node numbers are `int32`) the product is exact. -/
+theorem norm_int64_exact (k : Int) (h0 : 0 ≤ k) (h : k < 2 ^ 31) :
+    normProdW (2 ^ 63) k = k * (k - 1) := by
+  unfold normProdW
+  have hk : wrap (2 ^ 63) k = k := wrap_id _ _ (by omega) (by omega)
+  rw [hk]
+  by_cases hz : k = 0
+  · subst hz; decide
+  · have hk1 : wrap (2 ^ 63) (k - 1) = k - 1 := wrap_id _ _ (by omega) (by omega)
+    rw [hk1]
+    have hp : k * (k - 1) < 2 ^ 63 := by
+      have : k * (k - 1) ≤ (2 ^ 31) * (2 ^ 31) := by
+        apply Int.mul_le_mul <;> omega
+      omega
+    have hn : 0 ≤ k * (k - 1) := by
+      apply Int.mul_nonneg <;> omega
+    exact wrap_id _ _ (by omega) hp
+
+/-- … whereas in the library's `DEGREE` type (`int16`) it is exact up to `k = 181` only and
+wraps from `k = 182` on (`182 · 181 = 32942 > 32767`): the dtype of `cross_degree` matters
+(seeded change C11-4). -/
+theorem norm_int16_exact_iff :
+    (∀ k : Fin 182, normProdW (2 ^ 15) k.val = (k.val : Int) * ((k.val : Int) - 1))
+      ∧ normProdW (2 ^ 15) 182 ≠ 182 * 181 := by
+  constructor
+  · decide +kernel
+  · decide
+
+/-- every entry of `cross_outdegree` is at most `|L2|` … -/
+theorem crossOutDegree_le (A : Adj) (L1 L2 : List Nat) :
+    ∀ d ∈ crossOutDegree A L1 L2, d ≤ L2.length := by
+  intro d hd
+  simp only [crossOutDegree, rowSums, blockN, block, List.map_map, List.mem_map,
+    Function.comp_def] at hd
+  obtain ⟨a, _, rfl⟩ := hd
+  exact sum_b2n_le (fun b => A a b) L2
+
+/-- … and of `cross_degree` at most `2 |L2|`: the cross degrees fit every integer type that
+holds twice the number of nodes -/
+theorem crossDegree_le (directed : Bool) (A : Adj) (L1 L2 : List Nat) :
+    ∀ d ∈ crossDegree directed A L1 L2, d ≤ 2 * L2.length := by
+  unfold crossDegree
+  cases directed with
+  | false =>
+    intro d hd
+    have := crossOutDegree_le A L1 L2 d (by simpa using hd)
+    omega
+  | true =>
+    simp only [if_true]
+    apply mem_zipWith_add_le
+    · rw [crossInDegree_eq]
+      intro x hx
+      simp only [List.mem_map] at hx
+      obtain ⟨a, _, rfl⟩ := hx
+      exact sum_b2n_le (fun b => A b a) L2
+    · exact crossOutDegree_le A L1 L2
+
+/-- **the `long` counters of `_cross_transitivity` / `_cross_local_clustering` are bounded by
+`|L1| · C(|L2|, 2)`** (every unordered pair of group 2 is visited once per node of group 1) -/
+theorem ctCounts_le (A : Adj) (L1 L2 : List Nat) :
+    2 * (ctCounts A L1 L2).1 ≤ L1.length * (L2.length * (L2.length - 1))
+      ∧ 2 * (ctCounts A L1 L2).2 ≤ L1.length * (L2.length * (L2.length - 1)) := by
+  have hall : 2 * pairSum (fun _ _ => (1 : Nat)) L2 = L2.length * (L2.length - 1) := by
+    have := pairSum_both (fun _ => true) L2
+    simpa [b2n] using this
+  have hb : ∀ (f : Nat → Nat → Nat → Nat), (∀ a b c, f a b c ≤ 1) →
+      2 * (L1.map fun n1 => pairSum (f n1) L2).sum ≤ L1.length * (L2.length * (L2.length - 1)) := by
+    intro f hf
+    induction L1 with
+    | nil => simp
+    | cons x t ih =>
+      simp only [List.map_cons, List.sum_cons, List.length_cons]
+      have : pairSum (f x) L2 ≤ pairSum (fun _ _ => (1 : Nat)) L2 :=
+        pairSum_le (fun a b => hf x a b) L2
+      rw [Nat.add_mul]
+      omega
+  rw [ctCounts_eq_pairSums]
+  constructor
+  · apply hb (fun n1 n2 n3 => b2n (A n1 n2 && (A n2 n3 && A n3 n1)))
+    intro a b c; simp only [b2n]; split <;> omega
+  · apply hb (fun n1 n2 n3 => b2n (A n1 n2 && A n1 n3))
+    intro a b c; simp only [b2n]; split <;> omega
+
+/-- hence neither counter leaves the 64-bit `long` for groups of up to `2^21` (2 097 152) nodes
+each -/
+theorem counters_fit_long (A : Adj) (L1 L2 : List Nat) (h1 : L1.length ≤ 2 ^ 21)
+    (h2 : L2.length ≤ 2 ^ 21) :
+    (ctCounts A L1 L2).1 < 2 ^ 63 ∧ (ctCounts A L1 L2).2 < 2 ^ 63 := by
+  obtain ⟨ha, hb⟩ := ctCounts_le A L1 L2
+  have hn : L2.length * (L2.length - 1) ≤ 2 ^ 21 * 2 ^ 21 :=
+    Nat.mul_le_mul h2 (by omega)
+  have : L1.length * (L2.length * (L2.length - 1)) ≤ 2 ^ 21 * (2 ^ 21 * 2 ^ 21) :=
+    Nat.mul_le_mul h1 hn
+  constructor <;> omega
+
+/-! ### the dtype conversions and C declarations of the current source (`Generated/StructC11.lean`) -/
+
+/-- source texts that denote node lists (values `< N ≤ 2^31 − 1`: `int32` suffices) -/
+def nodeListValues : List String := ["node_list1", "node_list2", "node_list", "nodes1", "nodes2"]
+
+/-- source texts that denote 0/1 adjacency data, possibly plus the identity (values `≤ 2`:
+`int8` suffices, see `adjacency_values_fit_int8`) -/
+def adjacencyValues : List String :=
+  ["self.adjacency", "self.adjacency + np.eye(self.N, dtype=ADJ)",
+   "self.adjacency[node_list, :][:, node_list]"]
+
+open Pyunicorn.Generated in
+/-- a conversion is safe if its target type can hold every value of the converted expression:
+`float64` and 64-bit integers hold every count / degree / weight that occurs (`crossDegree_le`,
+`norm_int64_exact`), `int32` node numbers, `int8` the 0/1(+identity) adjacency data and the
+freshly created identity matrix.  Anything narrower on anything else — e.g. the cross degrees
+in `DEGREE = int16` (`norm_int16_exact_iff`) — is not. -/
+def safeCast (c : StructC11.Cast) : Bool :=
+  (c.kind == "float" && decide (64 ≤ c.bits))
+  || (c.kind == "int" && decide (64 ≤ c.bits))
+  || (c.kind == "int" && decide (32 ≤ c.bits) && nodeListValues.contains c.value)
+  || (c.kind == "int" && decide (8 ≤ c.bits) && adjacencyValues.contains c.value)
+  || (c.kind == "int" && decide (8 ≤ c.bits) && c.callee == "np.eye")
+
+open Pyunicorn.Generated in
+/-- **every explicit dtype conversion in the cross_/internal_/nsi_ methods of the current source
+is safe** (regenerated from `interacting_networks.py` and `_ext/types.py` on every run): no
+degree, count or normalisation is ever narrowed below 64 bits. -/
+theorem casts_safe : StructC11.casts.all safeCast = true := by decide +kernel
+
+example : safeCast ⟨"cross_local_clustering", "to_cy",
+    "InteractingNetworks.cross_degree(self, nodes1, nodes2)", "DEGREE", "int", 16⟩ = false := by
+  decide +kernel
+
+open Pyunicorn.Generated in
+/-- **the counters of the compiled kernels are C `long`s** (64 bit on the supported platforms,
+`counters_fit_long`), the loop variables `int` (list lengths `< 2^31`), the node numbers `NODE_t`
+and all sums of weights `DWEIGHT_t` (double) — read from the `cdef:` blocks of the current
+`numerics.pyx` -/
+theorem counters_are_long :
+    (StructC11.cdecls.filter fun d => ["triangles", "triples", "counter"].contains d.name).map
+        (fun d => (d.kernel, d.ctype))
+      = [("_cross_transitivity", "long"), ("_cross_transitivity", "long"),
+         ("_cross_local_clustering", "long")]
+    ∧ (StructC11.cdecls.all fun d =>
+        ["int", "long", "NODE_t", "DWEIGHT_t"].contains d.ctype) = true := by
+  decide +kernel
+
+/-- adjacency entries, also with the identity added (`adjacency + eye`), are at most 2 -/
+theorem adjacency_values_fit_int8 (A : Adj) (a b : Nat) :
+    b2n (A a b) + b2n (a == b) ≤ 2 ∧ (2 : Nat) < 2 ^ 7 := by
+  constructor
+  · unfold b2n; split <;> split <;> omega
+  · decide
 
 end Pyunicorn.Cross
